@@ -48,7 +48,7 @@ fn subj(o: &O) -> &O { if let O::Node(_, s, _) = o { s } else { o } }
 pub fn check_envelope(acc: &mut Acc, e: &Envelope, cid: &dyn Fn() -> String) {
     let o = bind::observe(e);
     let sc = shape_class(&o);
-    let det = || json!({"envelope": hex::encode(e.to_cbor_data()), "notation": e.format_flat()});
+    let det = || json!({"envelope": hex::encode(e.to_cbor_data()), "notation": crate::report::ff(&e)});
     // --- structure walk
     acc.inc("walks");
     let visits: RefCell<Vec<(D, usize, u8, Option<usize>)>> = RefCell::new(vec![]);
@@ -218,6 +218,30 @@ fn extraction(acc: &mut Acc) {
         bad
     });
     match rt { Ok(b) => for x in b { acc.viol(format!("C15|extract|roundtrip-{x}"), "a value created from T does not come back as T", format!("extract/roundtrip/{x}"), json!({})) }, Err(p) => acc.viol(format!("C15|extract|panic|{}", p.loc), p.msg.clone(), "extract/roundtrip", json!({})) }
+    // typed extraction of objects through a predicate: the stored value or an error, never another value (not None, not the caller's default)
+    {
+        let e = Envelope::new("s").add_assertion("name", "Alice").add_assertion("n", 5).add_assertion("hidden", Envelope::new("x").elide());
+        let bad = catch(|| {
+            let mut bad: Vec<&'static str> = vec![];
+            if e.extract_object_for_predicate::<String>("name").ok().as_deref() != Some("Alice") { bad.push("extract_object_for_predicate:stored-value") }
+            if e.extract_object_for_predicate::<i32>("name").is_ok() { bad.push("extract_object_for_predicate:wrong-type-accepted") }
+            if e.extract_object_for_predicate::<i32>("n").ok() != Some(5) { bad.push("extract_object_for_predicate:int") }
+            if e.extract_optional_object_for_predicate::<String>("name").ok() != Some(Some("Alice".to_string())) { bad.push("extract_optional_object_for_predicate:stored-value") }
+            if e.extract_optional_object_for_predicate::<String>("absent").ok() != Some(None) { bad.push("extract_optional_object_for_predicate:absent") }
+            if e.extract_optional_object_for_predicate::<i32>("name").is_ok() { bad.push("extract_optional_object_for_predicate:wrong-type-gives-a-value") }
+            if e.extract_optional_object_for_predicate::<String>("hidden").is_ok() { bad.push("extract_optional_object_for_predicate:elided-object-gives-a-value") }
+            if e.extract_object_for_predicate_with_default::<i32>("absent", 7).ok() != Some(7) { bad.push("extract_object_for_predicate_with_default:absent") }
+            if e.extract_object_for_predicate_with_default::<i32>("n", 7).ok() != Some(5) { bad.push("extract_object_for_predicate_with_default:stored-value") }
+            if e.extract_object_for_predicate_with_default::<i32>("name", 7).is_ok() { bad.push("extract_object_for_predicate_with_default:wrong-type-gives-the-default") }
+            if e.extract_objects_for_predicate::<String>("name").ok() != Some(vec!["Alice".to_string()]) { bad.push("extract_objects_for_predicate:stored-value") }
+            if e.extract_objects_for_predicate::<i32>("name").is_ok() { bad.push("extract_objects_for_predicate:wrong-type-accepted") }
+            if e.try_object_for_predicate::<String>("name").ok().as_deref() != Some("Alice") { bad.push("try_object_for_predicate:stored-value") }
+            if e.try_optional_object_for_predicate::<i32>("name").is_ok() { bad.push("try_optional_object_for_predicate:wrong-type-gives-a-value") }
+            bad
+        });
+        acc.add("extractions", 14);
+        match bad { Ok(b) => for x in b { acc.viol(format!("C15|extract|{x}"), "typed extraction through a predicate returned something else than the stored value or an error", format!("extract/by-predicate/{x}"), json!({"envelope": crate::report::ff(&e)})) }, Err(p) => acc.viol(format!("C15|extract|panic|{}", p.site), p.msg.clone(), "extract/by-predicate", json!({})) }
+    }
     // collection types on a non-collection leaf
     let e = Envelope::new("text");
     for (nm, r) in [("Vec<u32>", catch(|| e.extract_subject::<Vec<u32>>().is_ok())), ("HashMap", catch(|| e.extract_subject::<std::collections::HashMap<String, u32>>().is_ok())), ("HashSet", catch(|| e.extract_subject::<HashSet<u32>>().is_ok()))] {
